@@ -713,12 +713,13 @@ with exec (fuel : nat) (P : program) (env0 : env) (s : stmt) {struct fuel}
                  | v :: r =>
                      match pmatch P p v with
                      | Some bs =>
-                         do (_, en1) <- exec_block f P (bind_all en bs) body;
-                         go r en1
+                         (* every iteration has its own scope *)
+                         do (_, en1) <- exec_block f P (bind_all (push_scope en) bs) body;
+                         go r (pop_scope en1)
                      | None => Stuck 73
                      end
-                 end) vs (push_scope en)
-              |> (fun o => do en2 <- o; Done (unit_val, pop_scope en2))
+                 end) vs en
+              |> (fun o => do en2 <- o; Done (unit_val, en2))
           | _ => Stuck 74
           end
       | SJoinLoop p join_ty a b body =>
